@@ -81,6 +81,34 @@ def gen_insphere(rng, tier):
             fam = "cospherical-rotated+-1"
         cases.append((fam, pts))
         made += 1
+    # co-spherical clusters: five of the 48 signed permutations of (p, q, r) with full-mantissa p, q, r below 2^8..2^24 around a random centre of the
+    # 52-bit grid - all five points within 2^25 grid units of each other, so every difference and every squared norm is an exact double while the
+    # products of the determinant expansion are not (a floating-point "fast path" for nearby points returns rounding noise instead of 0)
+    import itertools as _it
+    for _ in range(4000 if tier == "quick" else 40000):
+        bits = rng.range(8, 24)
+        pq = [rng.range(1, (1 << bits) - 1) for _ in range(3)]
+        if len(set(pq)) < 3:
+            continue
+        cand = []
+        for _k in range(12):
+            perm = list(pq)
+            rng.shuffle(perm)
+            cand.append(tuple(x * rng.choice([-1, 1]) for x in perm))
+        cand = list(dict.fromkeys(cand))
+        if len(cand) < 5:
+            continue
+        ext = 1 << bits
+        ctr = tuple(rng.range(ext + 1, TOP - 2 - ext) for _ in range(3))
+        pts = [tuple(ctr[k] + u[k] for k in range(3)) for u in cand[:5]]
+        fam = "cospherical-cluster"
+        if rng.chance(0.5):
+            j, k = rng.below(5), rng.below(3)
+            pl = list(pts[j])
+            pl[k] += rng.choice([-1, 1])
+            pts[j] = tuple(pl)
+            fam = "cospherical-cluster+-1"
+        cases.append((fam, pts))
     n_adv = 3000 if tier == "quick" else 30000
     for _ in range(n_adv):
         kind = rng.below(6)
